@@ -834,7 +834,11 @@ def main():
                        "transitions of 2023, 2024, 2100 against the specification",
         "partial_theorems": [t for t in props["theorems"] if t.endswith("_partial")],
         "refuted_theorems": [t for t in props["theorems"] if t.endswith("_refuted")],
-        "differential_only": ["tzlocal against real glibc (C library trusted)", "tzrange keyword styles",
+        "regenerated_from_source": ["tzrangebase._dst_base_offset/_naive_isdst/is_ambiguous/_isdst/utcoffset/dst/"
+                                    "tzname/fromutc", "tzrange.__init__/transitions", "tzstr.__init__/_delta",
+                                    "tzlocal._naive_is_dst/is_ambiguous/_isdst/utcoffset/dst/tzname"],
+        "differential_only": ["_tzparser.parse (hand model; not regenerated)",
+                              "tzlocal against real glibc (C library trusted)", "tzrange keyword styles",
                               "deprecated comma format of _tzparser", "non-ASCII input"],
         "known_findings_hit": verdict.known_hits,
         "known_finding_examples": verdict.known_examples,
